@@ -1,1 +1,849 @@
-//! c11 — harnesses not written yet.
+//! C11 — selection copies members of the source population, in the requested number.
+//! Code: mahf::components::selection::common::{All,None,CloneSingle,FullyRandom,RandomWithoutRepetition,RouletteWheel,StochasticUniversalSampling,Tournament,LinearRank,ExponentialRank}::select (called directly)
+//! Code: mahf::components::selection::de::{DERand,DEBest,DECurrentToBest}::select, mahf::components::selection::iwo::DeterministicFitnessProportional::select
+//! Code: mahf::components::selection::functional::{objective_bounds,proportional_weights,reverse_rank,sample_population_weighted}, mahf::components::selection::selection (driver)
+//! Out: populations larger than 3; the distribution of stochastic selections (only support, count and weight direction); objective magnitudes above 2^100 for the weight-based operators (weight sums overflow to inf there)
+//! Out: inputs that are unusable but not documented as such: FullyRandom on an empty population, Tournament of size 0, IWO with max_selected < min_selected
+//! Assume: SymRng draw budget = rejection-free draws + 2 per harness; membership is checked by reference (ptr::eq with an element of the source slice)
+use mahf::components::selection::functional as f;
+use mahf::components::selection::{
+    de::{DEBest, DECurrentToBest, DERand},
+    iwo::DeterministicFitnessProportional,
+    All, CloneSingle, ExponentialRank, FullyRandom, LinearRank, None as SelectNone, RandomWithoutRepetition, RouletteWheel,
+    Selection, StochasticUniversalSampling, Tournament,
+};
+use mahf::components::Component;
+use mahf::state::common::Populations;
+use mahf::{Individual, Random, State};
+
+use crate::problems::{obj, TagP};
+use crate::rng::{draws, sym_random};
+use crate::sym;
+
+type Ind = Individual<TagP>;
+
+fn mk(n: usize, o: &mut [f64; 4], finite: bool) -> Vec<Ind> {
+    let mut v = Vec::with_capacity(4);
+    let mut i = 0;
+    while i < n {
+        o[i] = if finite { sym::finite_f64() } else { sym::legal_f64() };
+        v.push(Individual::new(i as u8, obj(o[i])));
+        i += 1;
+    }
+    v
+}
+
+/// Index of the source element `r` points to, or usize::MAX.
+fn index_of(pop: &[Ind], r: &Ind) -> usize {
+    let mut i = 0;
+    while i < pop.len() {
+        if core::ptr::eq(&pop[i], r) {
+            return i;
+        }
+        i += 1;
+    }
+    usize::MAX
+}
+fn all_members(pop: &[Ind], sel: &[&Ind]) -> bool {
+    let mut k = 0;
+    while k < sel.len() {
+        if index_of(pop, sel[k]) == usize::MAX {
+            return false;
+        }
+        k += 1;
+    }
+    true
+}
+fn count_of(pop: &[Ind], sel: &[&Ind], i: usize) -> usize {
+    let mut c = 0;
+    let mut k = 0;
+    while k < sel.len() {
+        if core::ptr::eq(&pop[i], sel[k]) {
+            c += 1;
+        }
+        k += 1;
+    }
+    c
+}
+fn untouched(pop: &[Ind], n: usize, o: &[f64; 4]) -> bool {
+    if pop.len() != n {
+        return false;
+    }
+    let mut i = 0;
+    while i < n {
+        if *pop[i].solution() != i as u8 || !pop[i].is_evaluated() || pop[i].objective().value().to_bits() != o[i].to_bits() {
+            return false;
+        }
+        i += 1;
+    }
+    true
+}
+
+macro_rules! h {
+    ($name:ident, $uw:expr, $body:expr) => {
+        #[cfg_attr(kani, kani::proof)]
+        #[cfg_attr(kani, kani::unwind($uw))]
+        pub fn $name() {
+            $body;
+            vcover!(true, "reached");
+        }
+    };
+}
+
+// ---- All / None / CloneSingle --------------------------------------------------------------------
+
+fn all_none(n: usize) {
+    let mut o = [0.0; 4];
+    let pop = mk(n, &mut o, false);
+    let mut rng = sym_random(0);
+    match Selection::<TagP>::select(&All::from_params(), &pop, &mut rng) {
+        Ok(s) => {
+            assert!(s.len() == n, "All selects everything");
+            let mut i = 0;
+            while i < n {
+                assert!(core::ptr::eq(s[i], &pop[i]), "All selects the members in order");
+                i += 1;
+            }
+            std::mem::forget(s);
+        }
+        Err(_) => assert!(false, "All never errs"),
+    }
+    match Selection::<TagP>::select(&SelectNone::from_params(), &pop, &mut rng) {
+        Ok(s) => assert!(s.is_empty(), "None selects nothing"),
+        Err(_) => assert!(false, "None never errs"),
+    }
+    assert!(draws() == 0 && untouched(&pop, n, &o), "deterministic, source untouched");
+    std::mem::forget((pop, rng));
+}
+// @h tier=quick bound="population 0" unwind=4
+h!(h_c11_all_none_0, 4, all_none(0));
+// @h tier=quick bound="population 2, all legal objectives" unwind=5
+h!(h_c11_all_none_2, 5, all_none(2));
+// @h tier=thorough bound="population 3, all legal objectives" unwind=6
+h!(h_c11_all_none_3, 6, all_none(3));
+
+fn clone_single(n: usize, k: u32) {
+    let mut o = [0.0; 4];
+    let pop = mk(n, &mut o, false);
+    let mut rng = sym_random(0);
+    let r = Selection::<TagP>::select(&CloneSingle::from_params(k), &pop, &mut rng);
+    if n == 1 {
+        match r {
+            Ok(s) => {
+                assert!(s.len() == k as usize, "CloneSingle returns the requested number");
+                assert!(count_of(&pop, &s, 0) == k as usize, "CloneSingle returns the single member");
+                std::mem::forget(s);
+            }
+            Err(_) => assert!(false, "CloneSingle succeeds on a single individual"),
+        }
+    } else {
+        assert!(r.is_err(), "CloneSingle: not exactly one individual is an error");
+    }
+    assert!(untouched(&pop, n, &o), "source untouched");
+    std::mem::forget((pop, rng));
+}
+// @h tier=quick bound="population 1, 3 copies" unwind=6
+h!(h_c11_clonesingle_1_3, 6, clone_single(1, 3));
+// @h tier=quick bound="population 1, 0 copies" unwind=4
+h!(h_c11_clonesingle_1_0, 4, clone_single(1, 0));
+// @h tier=quick bound="population 0 (error)" unwind=4
+h!(h_c11_clonesingle_0, 4, clone_single(0, 2));
+// @h tier=quick bound="population 2 (error)" unwind=5
+h!(h_c11_clonesingle_2, 5, clone_single(2, 2));
+
+// ---- FullyRandom / RandomWithoutRepetition -----------------------------------------------------------
+
+fn fully_random(n: usize, k: u32) {
+    let mut o = [0.0; 4];
+    let pop = mk(n, &mut o, false);
+    let mut rng = sym_random(k + 2);
+    match Selection::<TagP>::select(&FullyRandom::from_params(k), &pop, &mut rng) {
+        Ok(s) => {
+            assert!(s.len() == k as usize, "FullyRandom returns the requested number");
+            assert!(all_members(&pop, &s), "FullyRandom returns members of the source");
+            if n >= 2 && k >= 1 {
+                vcover!(core::ptr::eq(s[0], &pop[n - 1]), "last member selectable");
+                vcover!(core::ptr::eq(s[0], &pop[0]), "first member selectable");
+            }
+            std::mem::forget(s);
+        }
+        Err(_) => assert!(false, "FullyRandom never errs on a non-empty population"),
+    }
+    assert!(untouched(&pop, n, &o), "source untouched");
+    std::mem::forget((pop, rng));
+}
+// @h tier=quick bound="population 1, 2 draws" unwind=5 dead="last member selectable;first member selectable"
+h!(h_c11_fullyrandom_1_2, 5, fully_random(1, 2));
+// @h tier=quick bound="population 2, 2 selected, all draw sequences within 4 draws" unwind=6
+h!(h_c11_fullyrandom_2_2, 6, fully_random(2, 2));
+// @h tier=quick bound="population 3, 1 selected, all draw sequences within 3 draws" unwind=6
+h!(h_c11_fullyrandom_3_1, 6, fully_random(3, 1));
+// @h tier=quick bound="population 0, 0 selected" unwind=4 dead="last member selectable;first member selectable"
+h!(h_c11_fullyrandom_0_0, 4, fully_random(0, 0));
+// @h tier=thorough bound="population 3, 3 selected, all draw sequences within 5 draws" unwind=7 cost=3
+h!(h_c11_fullyrandom_3_3, 7, fully_random(3, 3));
+
+fn without_repetition(n: usize, k: u32) {
+    let mut o = [0.0; 4];
+    let pop = mk(n, &mut o, false);
+    let mut rng = sym_random(k + 2);
+    let r = Selection::<TagP>::select(&RandomWithoutRepetition::from_params(k), &pop, &mut rng);
+    if k as usize <= n {
+        match r {
+            Ok(s) => {
+                assert!(s.len() == k as usize, "RandomWithoutRepetition returns the requested number");
+                assert!(all_members(&pop, &s), "RandomWithoutRepetition returns members of the source");
+                let mut i = 0;
+                while i < n {
+                    assert!(count_of(&pop, &s, i) <= 1, "RandomWithoutRepetition returns distinct members");
+                    i += 1;
+                }
+                std::mem::forget(s);
+            }
+            Err(_) => assert!(false, "RandomWithoutRepetition succeeds whenever the population has at least the requested number of individuals"),
+        }
+    } else {
+        assert!(r.is_err(), "RandomWithoutRepetition: too few individuals is an error");
+    }
+    assert!(untouched(&pop, n, &o), "source untouched");
+    std::mem::forget((pop, rng));
+}
+// @h tier=quick bound="population 2, select 2 (n == len)" unwind=6
+h!(h_c11_norepeat_2_2, 6, without_repetition(2, 2));
+// @h tier=quick bound="population 1, select 1 (n == len)" unwind=5
+h!(h_c11_norepeat_1_1, 5, without_repetition(1, 1));
+// @h tier=quick bound="population 2, select 1" unwind=5
+h!(h_c11_norepeat_2_1, 5, without_repetition(2, 1));
+// @h tier=quick bound="population 3, select 2" unwind=6
+h!(h_c11_norepeat_3_2, 6, without_repetition(3, 2));
+// @h tier=quick bound="population 2, select 3 (too few)" unwind=7
+h!(h_c11_norepeat_2_3, 7, without_repetition(2, 3));
+// @h tier=quick bound="population 0, select 0" unwind=4
+h!(h_c11_norepeat_0_0, 4, without_repetition(0, 0));
+// @h tier=thorough bound="population 3, select 3 (n == len)" unwind=7 cost=3
+h!(h_c11_norepeat_3_3, 7, without_repetition(3, 3));
+
+// ---- Tournament ---------------------------------------------------------------------------------------
+
+fn tournament(n: usize, size: u32, k: u32) {
+    let mut o = [0.0; 4];
+    let pop = mk(n, &mut o, false);
+    let mut rng = sym_random(k * size + 2);
+    let r = Selection::<TagP>::select(&Tournament::from_params(k, size), &pop, &mut rng);
+    if size as usize <= n {
+        match r {
+            Ok(s) => {
+                assert!(s.len() == k as usize, "Tournament returns the requested number");
+                assert!(all_members(&pop, &s), "Tournament returns members of the source");
+                if size as usize == n {
+                    let mut j = 0;
+                    while j < s.len() {
+                        let w = s[j].objective().value();
+                        let mut i = 0;
+                        while i < n {
+                            assert!(w <= o[i], "a tournament over the whole population returns a best individual");
+                            i += 1;
+                        }
+                        j += 1;
+                    }
+                }
+                std::mem::forget(s);
+            }
+            Err(_) => assert!(false, "Tournament succeeds when the population is at least the tournament size"),
+        }
+    } else {
+        assert!(r.is_err(), "Tournament: too few individuals is an error");
+    }
+    assert!(untouched(&pop, n, &o), "source untouched");
+    std::mem::forget((pop, rng));
+}
+// @h tier=quick bound="population 3, tournament size 3, 1 winner; all objectives, all draw sequences within 5 draws" unwind=7 cost=3
+h!(h_c11_tournament_3_3_1, 7, tournament(3, 3, 1));
+// @h tier=quick bound="population 2, size 2, 2 winners" unwind=8 cost=3
+h!(h_c11_tournament_2_2_2, 8, tournament(2, 2, 2));
+// @h tier=quick bound="population 3, size 2, 1 winner" unwind=6 cost=2
+h!(h_c11_tournament_3_2_1, 6, tournament(3, 2, 1));
+// @h tier=quick bound="population 2, size 3 (too few)" unwind=6
+h!(h_c11_tournament_2_3_1, 6, tournament(2, 3, 1));
+// @h tier=quick bound="population 1, size 1, 0 winners" unwind=4
+h!(h_c11_tournament_1_1_0, 4, tournament(1, 1, 0));
+
+// ---- proportional weights, roulette wheel, SUS ------------------------------------------------------------
+
+const BIG: f64 = 1.2676506002282294e30; // 2^100
+
+fn bounded_pop(n: usize, o: &mut [f64; 4]) -> Vec<Ind> {
+    let pop = mk(n, o, true);
+    let mut i = 0;
+    while i < n {
+        sym::assume(o[i].abs() <= BIG);
+        i += 1;
+    }
+    pop
+}
+
+fn prop_weights(n: usize, normalize: bool) {
+    let mut o = [0.0; 4];
+    let pop = bounded_pop(n, &mut o);
+    let offset = sym::f64();
+    sym::assume(offset >= 0.0 && offset <= BIG);
+    match f::proportional_weights(&pop, offset, normalize) {
+        Some(w) => {
+            assert!(n > 0 && w.len() == n, "one weight per individual");
+            let mut i = 0;
+            while i < n {
+                assert!(w[i] >= 0.0, "weights are non-negative numbers");
+                let mut j = 0;
+                while j < n {
+                    if o[i] < o[j] {
+                        assert!(w[i] >= w[j], "a better objective never gets a smaller weight");
+                    }
+                    j += 1;
+                }
+                i += 1;
+            }
+            if n >= 2 {
+                vcover!(o[0] < o[1] && w[0] > w[1], "strictly better, strictly heavier");
+                vcover!(o[0] > 0.0 && o[1] > 0.0, "positive branch");
+                vcover!(o[0] < 0.0, "shifted branch");
+            }
+            std::mem::forget(w);
+        }
+        None => assert!(n == 0, "finite non-empty populations have weights"),
+    }
+    std::mem::forget(pop);
+}
+// @h tier=quick bound="population 0" unwind=4 dead="strictly better, strictly heavier;positive branch;shifted branch"
+h!(h_c11_weights_0, 4, prop_weights(0, false));
+// @h tier=quick bound="population 1, |o|,offset <= 2^100" unwind=5 dead="strictly better, strictly heavier;positive branch;shifted branch"
+h!(h_c11_weights_1, 5, prop_weights(1, false));
+// @h tier=thorough bound="population 2, |o|,offset <= 2^100, not normalised" unwind=6 cost=9 timeout=1800 mem=16
+h!(h_c11_weights_2, 6, prop_weights(2, false));
+// @h tier=thorough bound="population 3, |o|,offset <= 2^100, not normalised" unwind=7 cost=9 timeout=1800 mem=16
+h!(h_c11_weights_3, 7, prop_weights(3, false));
+// @h tier=thorough bound="population 2, normalised (symbolic division)" unwind=6 cost=6 timeout=1500
+h!(h_c11_weights_2_norm, 6, prop_weights(2, true));
+
+/// Infinite objective values are reported as None by the weight function and as Err by the
+/// operators that document it.
+fn infinite_is_err(n: usize) {
+    let mut o = [0.0; 4];
+    let pop = mk(n, &mut o, false);
+    let k = sym::upto(n as u8 - 1) as usize;
+    sym::assume(o[k] == f64::INFINITY);
+    assert!(f::proportional_weights(&pop, 1.0, false).is_none(), "proportional_weights: infinite objective gives None");
+    let mut rng = sym_random(0);
+    assert!(Selection::<TagP>::select(&RouletteWheel::from_params(1, 1.0), &pop, &mut rng).is_err(), "RouletteWheel: infinite objective values are an error");
+    assert!(Selection::<TagP>::select(&StochasticUniversalSampling::from_params(1, 1.0), &pop, &mut rng).is_err(), "SUS: infinite objective values are an error");
+    assert!(Selection::<TagP>::select(&DeterministicFitnessProportional::from_params(1, 2), &pop, &mut rng).is_err(), "IWO selection: infinite objective values are an error");
+    assert!(draws() == 0, "no draw before the error");
+    std::mem::forget((pop, rng));
+}
+// @h tier=quick bound="population 1 with an infinite objective" unwind=5
+h!(h_c11_infinite_1, 5, infinite_is_err(1));
+// @h tier=quick bound="population 2, any member infinite, the other any legal value" unwind=6
+h!(h_c11_infinite_2, 6, infinite_is_err(2));
+// @h tier=thorough bound="population 3, any member infinite" unwind=7
+h!(h_c11_infinite_3, 7, infinite_is_err(3));
+
+fn roulette(n: usize, k: u32) {
+    let mut o = [0.0; 4];
+    let pop = bounded_pop(n, &mut o);
+    let offset = sym::f64();
+    sym::assume(offset > 0.0 && offset <= BIG);
+    let mut rng = sym_random(k + 2);
+    match Selection::<TagP>::select(&RouletteWheel::from_params(k, offset), &pop, &mut rng) {
+        Ok(s) => {
+            assert!(s.len() == k as usize, "RouletteWheel returns the requested number");
+            assert!(all_members(&pop, &s), "RouletteWheel returns members of the source");
+            std::mem::forget(s);
+        }
+        Err(_) => assert!(false, "RouletteWheel succeeds on finite objective values"),
+    }
+    assert!(untouched(&pop, n, &o), "source untouched");
+    std::mem::forget((pop, rng));
+}
+// @h tier=thorough bound="population 1, 2 selected, offset in (0,2^100]" unwind=6 cost=9 timeout=1800 mem=16
+h!(h_c11_roulette_1_2, 6, roulette(1, 2));
+// @h tier=thorough bound="population 2, 1 selected, |o| <= 2^100, offset in (0,2^100]" unwind=6 cost=9 timeout=1800 mem=16
+h!(h_c11_roulette_2_1, 6, roulette(2, 1));
+// @h tier=thorough bound="population 3, 2 selected" unwind=7 cost=8 timeout=1500
+h!(h_c11_roulette_3_2, 7, roulette(3, 2));
+
+fn sus(n: usize, k: u32, normal_range: bool) {
+    let mut o = [0.0; 4];
+    let pop = bounded_pop(n, &mut o);
+    let offset = sym::f64();
+    sym::assume(offset > 0.0 && offset <= BIG);
+    if normal_range {
+        // weights (max - o + offset) stay normal numbers: offset >= 2^-100
+        sym::assume(offset >= 7.888609052210118e-31);
+    }
+    let mut rng = sym_random(1);
+    match Selection::<TagP>::select(&StochasticUniversalSampling::from_params(k, offset), &pop, &mut rng) {
+        Ok(s) => {
+            assert!(s.len() == k as usize, "SUS returns the requested number");
+            assert!(all_members(&pop, &s), "SUS returns members of the source");
+            std::mem::forget(s);
+        }
+        Err(_) => assert!(false, "SUS succeeds on finite objective values"),
+    }
+    assert!(untouched(&pop, n, &o), "source untouched");
+    std::mem::forget((pop, rng));
+}
+// @h tier=thorough bound="population 1, 1 selected, offset in [2^-100,2^100]" unwind=5 cost=9 timeout=1800 mem=16
+h!(h_c11_sus_1_1, 5, sus(1, 1, true));
+// @h tier=quick bound="population 1, 1 selected, offset down to the smallest subnormal" unwind=5 cost=2 known=F-C11c
+h!(h_c11_sus_1_1_subnormal, 5, sus(1, 1, false));
+// @h tier=thorough bound="population 2, 2 selected, |o| <= 2^100" unwind=6 cost=9 timeout=1800 mem=16
+h!(h_c11_sus_2_2, 6, sus(2, 2, true));
+// @h tier=thorough bound="population 2, 3 selected" unwind=7 cost=8 timeout=1500
+h!(h_c11_sus_2_3, 7, sus(2, 3, true));
+
+// ---- rank-based -----------------------------------------------------------------------------------------
+
+fn ranks(n: usize) {
+    let mut o = [0.0; 4];
+    let pop = mk(n, &mut o, false);
+    let r = f::reverse_rank(&pop);
+    assert!(r.len() == n, "one rank per individual");
+    let mut i = 0;
+    while i < n {
+        assert!(r[i] >= 1 && r[i] <= n, "ranks are within 1..=len");
+        let mut j = 0;
+        while j < n {
+            assert!((o[i] < o[j]) == (r[i] < r[j]), "lower objective value, lower rank; ties share a rank");
+            j += 1;
+        }
+        i += 1;
+    }
+    std::mem::forget((pop, r));
+}
+// @h tier=quick bound="population 0" unwind=4
+h!(h_c11_ranks_0, 4, ranks(0));
+// @h tier=thorough bound="population 2, all legal objectives" unwind=6 cost=9 timeout=1800 mem=16
+h!(h_c11_ranks_2, 6, ranks(2));
+// @h tier=thorough bound="population 3, all legal objectives" unwind=8 cost=8 timeout=1500
+h!(h_c11_ranks_3, 8, ranks(3));
+
+/// Fixed generator: returns the scripted 64-bit outputs in order (zone representatives).
+pub struct ScriptRng;
+static mut SCRIPT: [u64; 8] = [0; 8];
+static mut SCRIPT_POS: usize = 0;
+impl rand::RngCore for ScriptRng {
+    fn next_u32(&mut self) -> u32 {
+        (self.next_u64() >> 32) as u32
+    }
+    fn next_u64(&mut self) -> u64 {
+        unsafe {
+            let v = SCRIPT[SCRIPT_POS];
+            SCRIPT_POS += 1;
+            v
+        }
+    }
+    fn fill_bytes(&mut self, dest: &mut [u8]) {
+        for b in dest {
+            *b = 0;
+        }
+    }
+    fn try_fill_bytes(&mut self, dest: &mut [u8]) -> Result<(), rand::Error> {
+        self.fill_bytes(dest);
+        Ok(())
+    }
+}
+impl rand::SeedableRng for ScriptRng {
+    type Seed = [u8; 8];
+    fn from_seed(_: Self::Seed) -> Self {
+        ScriptRng
+    }
+    fn seed_from_u64(_: u64) -> Self {
+        ScriptRng
+    }
+}
+
+/// Selection weight direction of a rank-based operator, measured through the real `select`:
+/// `reps` equally spaced generator outputs (one per unit of total weight) are fed one at a
+/// time; the number of outputs that select individual i is its share of the generator's
+/// output space. A better individual must not get a smaller share.
+fn rank_direction<S: Selection<TagP>>(op: &S, n: usize, reps: usize) {
+    let mut o = [0.0; 4];
+    let pop = mk(n, &mut o, false);
+    // strict order, symbolic permutation
+    let mut i = 0;
+    while i < n {
+        let mut j = 0;
+        while j < i {
+            sym::assume(o[i] != o[j]);
+            j += 1;
+        }
+        i += 1;
+    }
+    let mut share = [0usize; 4];
+    let mut k = 0;
+    while k < reps {
+        // representative of the k-th of `reps` equal zones of the 64-bit output space
+        let v = ((k as u128 * 2 + 1) * (1u128 << 63) / reps as u128) as u64;
+        unsafe {
+            SCRIPT[0] = v;
+            SCRIPT_POS = 0;
+        }
+        let mut rng = Random::with_rng::<ScriptRng>(0);
+        match op.select(&pop, &mut rng) {
+            Ok(s) => {
+                assert!(s.len() == 1, "rank selection returns the requested number");
+                let idx = index_of(&pop, s[0]);
+                assert!(idx < n, "rank selection returns a member of the source");
+                share[idx] += 1;
+                std::mem::forget(s);
+            }
+            Err(_) => assert!(false, "rank selection succeeds on a non-empty population"),
+        }
+        assert!(unsafe { SCRIPT_POS } == 1, "exactly one generator output per selection (no rejection at the representative)");
+        std::mem::forget(rng);
+        k += 1;
+    }
+    let mut i = 0;
+    while i < n {
+        let mut j = 0;
+        while j < n {
+            if o[i] < o[j] {
+                assert!(share[i] >= share[j], "a better individual never gets a smaller share of the selection weight");
+            }
+            j += 1;
+        }
+        i += 1;
+    }
+    std::mem::forget(pop);
+}
+// @h tier=thorough bound="population 2, distinct objectives (any order), 3 zone representatives" unwind=6 cost=9 timeout=1800 mem=16
+h!(h_c11_linearrank_direction_2, 6, rank_direction(&LinearRank::from_params(1), 2, 3));
+// @h tier=thorough bound="population 3, distinct objectives (any order), 6 zone representatives" unwind=9 cost=9 timeout=1800
+h!(h_c11_linearrank_direction_3, 9, rank_direction(&LinearRank::from_params(1), 3, 6));
+
+#[cfg(kani)]
+fn powi_model(b: f64, n: i32) -> f64 {
+    // exact for the small non-negative exponents used here
+    let mut r = 1.0;
+    let mut i = 0;
+    while i < n {
+        r *= b;
+        i += 1;
+    }
+    r
+}
+/// @h tier=thorough bound="population 2, distinct objectives (any order), base 0.5, 3 zone representatives" unwind=6 cost=9 timeout=1800 mem=16
+#[cfg_attr(kani, kani::proof)]
+#[cfg_attr(kani, kani::unwind(6))]
+#[cfg_attr(kani, kani::stub(f64::powi, powi_model))]
+pub fn h_c11_exprank_direction_2() {
+    match ExponentialRank::from_params(1, 0.5) {
+        Ok(op) => rank_direction(&op, 2, 3),
+        Err(_) => assert!(false, "base 0.5 is a documented legal base"),
+    }
+    vcover!(true, "reached");
+}
+
+// ---- DE selections ----------------------------------------------------------------------------------------
+
+fn de_rand(n: usize) {
+    let mut o = [0.0; 4];
+    let pop = mk(n, &mut o, false);
+    let mut rng = sym_random(3 * n as u32 + 2);
+    let op = match DERand::from_params(1) {
+        Ok(op) => op,
+        Err(_) => {
+            assert!(false, "y = 1 is legal");
+            return;
+        }
+    };
+    match Selection::<TagP>::select(&op, &pop, &mut rng) {
+        Ok(s) => {
+            assert!(s.len() == 3 * n, "DERand emits 2y+1 individuals per population member");
+            assert!(all_members(&pop, &s), "DERand returns members of the source");
+            std::mem::forget(s);
+        }
+        Err(_) => assert!(false, "DERand never errs"),
+    }
+    assert!(untouched(&pop, n, &o), "source untouched");
+    std::mem::forget((pop, rng));
+}
+// @h tier=thorough bound="population 3, y = 1, all draw sequences within 11 draws" unwind=13 cost=9 timeout=1800 mem=12
+h!(h_c11_derand_3, 13, de_rand(3));
+// @h tier=quick bound="population 0, y = 1" unwind=4
+h!(h_c11_derand_0, 4, de_rand(0));
+
+fn de_best(n: usize) {
+    let mut o = [0.0; 4];
+    let pop = mk(n, &mut o, false);
+    let mut rng = sym_random(2 * n as u32 + 2);
+    let op = match DEBest::from_params(1) {
+        Ok(op) => op,
+        Err(_) => {
+            assert!(false, "y = 1 is legal");
+            return;
+        }
+    };
+    let r = Selection::<TagP>::select(&op, &pop, &mut rng);
+    if n == 0 {
+        assert!(r.is_err(), "DEBest: empty population is an error");
+    } else {
+        match r {
+            Ok(s) => {
+                assert!(s.len() == 3 * n, "DEBest emits 2y+1 individuals per population member");
+                assert!(all_members(&pop, &s), "DEBest returns members of the source");
+                let mut g = 0;
+                while g < n {
+                    let b = s[3 * g].objective().value();
+                    let mut i = 0;
+                    while i < n {
+                        assert!(b <= o[i], "DEBest: each group starts with a best individual");
+                        i += 1;
+                    }
+                    g += 1;
+                }
+                std::mem::forget(s);
+            }
+            Err(_) => assert!(false, "DEBest succeeds on a population of at least 2y+1"),
+        }
+    }
+    assert!(untouched(&pop, n, &o), "source untouched");
+    std::mem::forget((pop, rng));
+}
+// @h tier=quick bound="population 0 (error)" unwind=4
+h!(h_c11_debest_0, 4, de_best(0));
+// @h tier=thorough bound="population 3, y = 1, all draw sequences within 8 draws" unwind=10 cost=9 timeout=1800 mem=12
+h!(h_c11_debest_3, 10, de_best(3));
+
+fn de_current_to_best(n: usize) {
+    let mut o = [0.0; 4];
+    let pop = mk(n, &mut o, false);
+    let mut rng = sym_random(n as u32 + 2);
+    let op = match DECurrentToBest::from_params(1) {
+        Ok(op) => op,
+        Err(_) => {
+            assert!(false, "y = 1 is legal");
+            return;
+        }
+    };
+    let r = Selection::<TagP>::select(&op, &pop, &mut rng);
+    if n == 0 {
+        assert!(r.is_err(), "DECurrentToBest: empty population is an error");
+    } else {
+        match r {
+            Ok(s) => {
+                assert!(s.len() == 3 * n, "DECurrentToBest emits 2y+1 individuals per population member");
+                assert!(all_members(&pop, &s), "DECurrentToBest returns members of the source");
+                let mut g = 0;
+                while g < n {
+                    assert!(core::ptr::eq(s[3 * g], &pop[g]), "DECurrentToBest: each group starts with the current individual");
+                    let b = s[3 * g + 1].objective().value();
+                    let mut i = 0;
+                    while i < n {
+                        assert!(b <= o[i], "DECurrentToBest: then a best individual");
+                        i += 1;
+                    }
+                    assert!(!core::ptr::eq(s[3 * g + 2], &pop[g]), "DECurrentToBest: the random one is not the current individual");
+                    g += 1;
+                }
+                std::mem::forget(s);
+            }
+            Err(_) => assert!(false, "DECurrentToBest succeeds on a population of at least 2y+1"),
+        }
+    }
+    assert!(untouched(&pop, n, &o), "source untouched");
+    std::mem::forget((pop, rng));
+}
+// @h tier=quick bound="population 0 (error)" unwind=4
+h!(h_c11_decurrenttobest_0, 4, de_current_to_best(0));
+// @h tier=thorough bound="population 3 (unique individuals), y = 1, all draw sequences within 5 draws" unwind=8 cost=9 timeout=1800 mem=12
+h!(h_c11_decurrenttobest_3, 8, de_current_to_best(3));
+
+// ---- IWO ----------------------------------------------------------------------------------------------------
+
+fn iwo(n: usize, lo: u32, hi: u32) {
+    let mut o = [0.0; 4];
+    let pop = mk(n, &mut o, true);
+    let mut rng = sym_random(0);
+    match Selection::<TagP>::select(&DeterministicFitnessProportional::from_params(lo, hi), &pop, &mut rng) {
+        Ok(s) => {
+            assert!(n > 0, "IWO selection: empty population is an error");
+            assert!(all_members(&pop, &s), "IWO selection returns members of the source");
+            let mut total = 0;
+            let mut i = 0;
+            while i < n {
+                let ci = count_of(&pop, &s, i);
+                total += ci;
+                assert!(ci >= lo as usize && ci <= hi as usize, "each individual is selected between min_selected and max_selected times");
+                let (mut is_best, mut is_worst) = (true, true);
+                let mut j = 0;
+                while j < n {
+                    if o[j] < o[i] {
+                        is_best = false;
+                        assert!(count_of(&pop, &s, j) >= ci, "a better individual is never selected less often");
+                    }
+                    if o[j] > o[i] {
+                        is_worst = false;
+                    }
+                    j += 1;
+                }
+                if is_best && !is_worst {
+                    assert!(ci == hi as usize, "the best individual is selected max_selected times");
+                }
+                if is_worst && !is_best {
+                    assert!(ci == lo as usize, "the worst individual is selected min_selected times");
+                }
+                i += 1;
+            }
+            assert!(total == s.len(), "nothing else is selected");
+            std::mem::forget(s);
+        }
+        Err(_) => assert!(n == 0, "IWO selection succeeds on finite objective values"),
+    }
+    assert!(draws() == 0 && untouched(&pop, n, &o), "deterministic, source untouched");
+    std::mem::forget((pop, rng));
+}
+// @h tier=quick bound="population 0" unwind=4
+h!(h_c11_iwo_0, 4, iwo(0, 1, 2));
+// @h tier=quick bound="population 1, min 1 max 3" unwind=6 cost=2
+h!(h_c11_iwo_1, 6, iwo(1, 1, 3));
+// @h tier=thorough bound="population 2, all finite objectives, min 0 max 2" unwind=6 cost=9 timeout=1800 mem=16
+h!(h_c11_iwo_2, 6, iwo(2, 0, 2));
+// @h tier=thorough bound="population 3, all finite objectives, min 1 max 3" unwind=8 cost=9 timeout=1800 mem=12
+h!(h_c11_iwo_3, 8, iwo(3, 1, 3));
+
+// ---- driver -------------------------------------------------------------------------------------------------
+
+fn driver_state(n: usize, o: &mut [f64; 4], budget: u32) -> State<'static, TagP> {
+    let mut pops = Populations::<TagP>::new();
+    pops.push(mk(n, o, false));
+    let mut s: State<TagP> = State::new();
+    s.insert(sym_random(budget));
+    s.insert(pops);
+    s
+}
+
+fn driver_all(n: usize) {
+    let mut o = [0.0; 4];
+    let mut s = driver_state(n, &mut o, 0);
+    let r = Component::<TagP>::execute(&All::from_params(), &TagP, &mut s);
+    assert!(r.is_ok(), "driver: All succeeds");
+    {
+        let p = s.populations();
+        assert!(p.len() == 2, "driver pushes exactly one new population");
+        assert!(untouched(p.peek(1), n, &o), "driver: source population untouched");
+        assert!(untouched(p.current(), n, &o), "driver: pushed individuals are exact copies (solution and objective)");
+    }
+    std::mem::forget(s);
+}
+// @h tier=thorough bound="driver with All on a population of 2" unwind=6 cost=9 timeout=1800 mem=16
+h!(h_c11_driver_all_2, 6, driver_all(2));
+
+fn driver_clonesingle(n: usize) {
+    let mut o = [0.0; 4];
+    let mut s = driver_state(n, &mut o, 0);
+    let r = Component::<TagP>::execute(&CloneSingle::from_params(2), &TagP, &mut s);
+    if n == 1 {
+        assert!(r.is_ok(), "driver: CloneSingle succeeds");
+        let p = s.populations();
+        assert!(p.len() == 2 && p.current().len() == 2, "driver pushes one population of the requested size");
+        assert!(untouched(p.peek(1), n, &o), "driver: source population untouched");
+        let c = p.current();
+        assert!(*c[0].solution() == 0 && *c[1].solution() == 0 && c[1].objective().value().to_bits() == o[0].to_bits(), "copies of the single individual");
+    } else {
+        assert!(r.is_err(), "driver: the selection error is propagated");
+        let p = s.populations();
+        assert!(p.len() == 1 && untouched(p.current(), n, &o), "driver: nothing pushed on error, source untouched");
+    }
+    std::mem::forget(s);
+}
+// @h tier=quick bound="driver with CloneSingle on a population of 1" unwind=6 cost=4
+h!(h_c11_driver_clonesingle_1, 6, driver_clonesingle(1));
+// @h tier=quick bound="driver with CloneSingle on a population of 2 (error)" unwind=6 cost=4
+h!(h_c11_driver_clonesingle_2, 6, driver_clonesingle(2));
+
+// @h tier=thorough bound="driver with All on a population of 1" unwind=5 cost=9 timeout=1800 mem=16
+h!(h_c11_driver_all_1, 5, driver_all(1));
+
+// `reverse_rank` (itertools sorted_by_key + group_by + collect_vec) is intractable for CBMC even
+// on concrete data (path explosion inside itertools' GroupBy buffer; 25 min / 7 GB without a
+// verdict). For the *direction* clause the rank function is therefore replaced by a reference
+// model with the documented meaning (dense ranks, lowest objective value = rank 1, ties share
+// a rank) through `#[kani::stub]`; the operator's own code — what it does with the ranks — is
+// the real code, and every counterexample is replayed natively with the real `reverse_rank`.
+#[cfg(kani)]
+fn reverse_rank_model<P: mahf::problems::SingleObjectiveProblem>(population: &[Individual<P>]) -> Vec<usize> {
+    let n = population.len();
+    let mut out = Vec::with_capacity(4);
+    let mut i = 0;
+    while i < n {
+        let oi = population[i].objective().value();
+        let mut rank = 1;
+        let mut j = 0;
+        while j < n {
+            let oj = population[j].objective().value();
+            if oj < oi {
+                // count each distinct smaller value once
+                let mut first = true;
+                let mut k = 0;
+                while k < j {
+                    if population[k].objective().value() == oj {
+                        first = false;
+                    }
+                    k += 1;
+                }
+                if first {
+                    rank += 1;
+                }
+            }
+            j += 1;
+        }
+        out.push(rank);
+        i += 1;
+    }
+    out
+}
+
+/// @h tier=quick bound="population 2, all distinct legal objectives (any order), 3 zone representatives; reverse_rank stubbed by its specification" unwind=6 cost=4
+#[cfg_attr(kani, kani::proof)]
+#[cfg_attr(kani, kani::unwind(6))]
+#[cfg_attr(kani, kani::stub(mahf::components::selection::functional::reverse_rank, reverse_rank_model))]
+pub fn h_c11_linearrank_direction_2s() {
+    rank_direction(&LinearRank::from_params(1), 2, 3);
+    vcover!(true, "reached");
+}
+/// @h tier=quick bound="population 3, all distinct legal objectives (any order), 6 zone representatives; reverse_rank stubbed by its specification" unwind=9 cost=6 timeout=600
+#[cfg_attr(kani, kani::proof)]
+#[cfg_attr(kani, kani::unwind(9))]
+#[cfg_attr(kani, kani::stub(mahf::components::selection::functional::reverse_rank, reverse_rank_model))]
+pub fn h_c11_linearrank_direction_3s() {
+    rank_direction(&LinearRank::from_params(1), 3, 6);
+    vcover!(true, "reached");
+}
+/// @h tier=quick bound="population 2, all distinct legal objectives (any order), base 0.5, 3 zone representatives; reverse_rank stubbed by its specification, powi by repeated multiplication" unwind=6 cost=4
+#[cfg_attr(kani, kani::proof)]
+#[cfg_attr(kani, kani::unwind(6))]
+#[cfg_attr(kani, kani::stub(f64::powi, powi_model))]
+#[cfg_attr(kani, kani::stub(mahf::components::selection::functional::reverse_rank, reverse_rank_model))]
+pub fn h_c11_exprank_direction_2s() {
+    match ExponentialRank::from_params(1, 0.5) {
+        Ok(op) => rank_direction(&op, 2, 3),
+        Err(_) => assert!(false, "base 0.5 is a documented legal base"),
+    }
+    vcover!(true, "reached");
+}
+
+fn driver_none(n: usize) {
+    let mut o = [0.0; 4];
+    let mut s = driver_state(n, &mut o, 0);
+    let r = Component::<TagP>::execute(&SelectNone::from_params(), &TagP, &mut s);
+    assert!(r.is_ok(), "driver: None succeeds");
+    {
+        let p = s.populations();
+        assert!(p.len() == 2, "driver pushes exactly one new population");
+        assert!(untouched(p.peek(1), n, &o), "driver: source population untouched");
+        assert!(p.current().is_empty(), "driver+None: the pushed population is empty");
+    }
+    std::mem::forget(s);
+}
+// @h tier=quick bound="driver with None on a population of 2" unwind=6 cost=4
+h!(h_c11_driver_none_2, 6, driver_none(2));
